@@ -180,11 +180,15 @@ def mk_text(c):
         return [("http_url %s %d" % (hx, cap), {"op": "http_url", "shape": sh}) for cap in sorted({1, 2, n, n + 1} - {0})]
     return [(("%s %s" % (fam, hx)) if ph is None else ("%s %s %d" % (fam, hx, ph)), {"op": fam, "shape": sh}) for ph in PHASES[fam]]
 def mk_ts(c):
-    one = bytes(c["bytes"])
-    return [("ts %s 0" % hexs(one), {"op": "ts", "shape": c["why"], "c": c}),
-            ("ts %s 1" % hexs(one), {"op": "ts1", "shape": c["why"], "c": c}),
-            ("ts %s 1" % hexs(one + one), {"op": "ts1", "shape": c["why"] + "/x2", "c": c}),
-            ("ts %s 2" % hexs(one + one), {"op": "ts2", "shape": c["why"] + "/x2", "c": c})]
+    one = bytes(c["bytes"]); st = bytes(c["stream"]); f = c["fields"]
+    out = []
+    if f["pre"] == 0 and f["cut"] == 0:
+        out += [("ts %s 0" % hexs(one), {"op": "ts", "shape": c["why"], "c": c}),
+                ("ts %s 2" % hexs(one + one), {"op": "ts2", "shape": c["why"] + "/x2", "c": c})]
+    sh = c["why"] + ("/stream" if c["has_pkt"] else "/stream-no-packet")
+    out += [("ts %s 1" % hexs(st), {"op": "ts1", "shape": sh, "c": c}),
+            ("ts %s 2" % hexs(st), {"op": "ts2", "shape": sh, "c": c})]
+    return out
 
 # ------------------------------------------------------------------------------------------ comparators
 def I(f, k): return int(f[k])
@@ -224,6 +228,8 @@ def cmp_case(meta, f):
         if meta["c"]["must_refuse"] and I(f, "valid") != 0: return ("sap_packet_is_valid", "accepts-malformed")
     elif op == "ts":
         if meta["c"]["must_refuse"] and I(f, "valid") != 0: return ("mpeg2_ts_pkt_is_valid", "accepts-malformed")
+    elif op == "ts1":
+        if not meta["c"]["has_pkt"] and I(f, "next0") != 0: return ("mpeg2_ts_pkt_get_next", "accepts-malformed")
     return None
 
 # ------------------------------------------------------------------------------------------ main
